@@ -399,6 +399,10 @@ class Executor:
             if exists:
                 return None
             rec["kind"] = op["kind"]
+            # the missing id may look like an existing one: the id of a live bucket with the letter case swapped is a different key
+            lookalikes = [self.bname[c].swapcase() for c in self.B if c != b and self.sh_exists[c] and self.bname[c].swapcase() != self.bname[c]]
+            if lookalikes and self.rnd.random() < 0.4:
+                rb = self.rnd.choice(lookalikes)
             try:
                 if op["kind"] == "lookup":
                     ds[rb]
